@@ -19,6 +19,9 @@ pub struct Target {
     pub is_inner: bool,
     pub is_transient: bool,
     pub is_wasm: bool,
+    /// no user transaction can call it directly whatever it signs with (RootOnly / deny_all function,
+    /// OuterObjectOnly / OwnPackageOnly / role-less method): genesis reaches these with auth switched off
+    pub system_only: bool,
     /// schema + type id of the input tuple (None: generic / unresolvable -> treated as Any)
     pub input: Option<(Rc<VersionedScryptoSchema>, LocalTypeId)>,
 }
@@ -95,6 +98,17 @@ impl Catalog {
             }
             let is_wasm = package_is_wasm(db, &package);
             let package_name = well_known_package_name(&package);
+            let auth: BTreeMap<String, AuthConfig> = reader
+                .collection_iter(package.as_node_id(), ModuleId::Main, PackageCollection::BlueprintVersionAuthConfigKeyValue.collection_index())
+                .map(|it| {
+                    it.filter_map(|(k, v)| {
+                        let key: BlueprintVersionKey = scrypto_decode(&k.into_map()).ok()?;
+                        let cfg: PackageBlueprintVersionAuthConfigEntryPayload = scrypto_decode(&v).ok()?;
+                        Some((key.blueprint, cfg.fully_update_and_into_latest_version()))
+                    })
+                    .collect()
+                })
+                .unwrap_or_default();
             let defs = sim.get_package_blueprint_definitions(&package);
             let mut defs: Vec<_> = defs.into_iter().collect();
             defs.sort_by(|a, b| a.0.blueprint.cmp(&b.0.blueprint));
@@ -107,6 +121,28 @@ impl Catalog {
                         BlueprintPayloadDef::Static(ScopedTypeId(hash, ty)) => reader.get_schema(package.as_node_id(), hash).ok().map(|s| (s, *ty)),
                         BlueprintPayloadDef::Generic(_) => None,
                     };
+                    let system_only = match auth.get(&key.blueprint) {
+                        None => false,
+                        Some(cfg) => {
+                            if fs.receiver.is_none() {
+                                match &cfg.function_auth {
+                                    FunctionAuth::AllowAll => false,
+                                    FunctionAuth::RootOnly => true,
+                                    FunctionAuth::AccessRules(m) => matches!(m.get(name), Some(AccessRule::DenyAll) | None),
+                                }
+                            } else {
+                                match &cfg.method_auth {
+                                    MethodAuthTemplate::AllowAll => false,
+                                    MethodAuthTemplate::StaticRoleDefinition(d) => match d.methods.get(&MethodKey::new(name.as_str())) {
+                                        Some(MethodAccessibility::Public) => false,
+                                        Some(MethodAccessibility::RoleProtected(l)) => l.list.is_empty(),
+                                        Some(MethodAccessibility::OuterObjectOnly) | Some(MethodAccessibility::OwnPackageOnly) => true,
+                                        None => true,
+                                    },
+                                }
+                            }
+                        }
+                    };
                     targets.push(Target {
                         package,
                         package_name: package_name.clone(),
@@ -117,6 +153,7 @@ impl Catalog {
                         is_inner: matches!(def.interface.blueprint_type, BlueprintType::Inner { .. }),
                         is_transient: def.interface.is_transient,
                         is_wasm,
+                        system_only,
                         input,
                     });
                 }
